@@ -249,9 +249,14 @@ impl DnsCache {
 
         let entry_name_lower = entry_name.to_lowercase();
 
-        // No existing records for this name and type, and not for us: leave the
-        // cache alone (an empty entry would later be taken for an expired one).
-        if !is_for_us {
+        // A goodbye (TTL 0, read as TTL 1) for a record we do not have withdraws
+        // nothing: it is not cached as if it were new data.
+        let is_goodbye = incoming.get_record().get_ttl() <= 1;
+
+        // No existing records for this name and type, and not for us (or nothing
+        // to withdraw): leave the cache alone (an empty entry would later be
+        // taken for an expired one).
+        if !is_for_us || is_goodbye {
             let existing = match incoming.get_type() {
                 RRType::PTR => self.ptr.get(&entry_name),
                 RRType::SRV => self.srv.get(&entry_name),
@@ -261,7 +266,7 @@ impl DnsCache {
                 _ => None,
             };
             if existing.map_or(true, |records| records.is_empty()) {
-                trace!("add_or_update: not for us: {}", incoming.get_name());
+                trace!("add_or_update: not for us or nothing to withdraw: {}", incoming.get_name());
                 return None;
             }
         }
@@ -326,12 +331,19 @@ impl DnsCache {
             .find(|(_idx, r)| r.record.matches(incoming.as_ref()))
         {
             Some((i, r)) => {
+                // A record that was withdrawn by a goodbye (TTL 0, kept with TTL 1)
+                // is not reported any more: it counts as new when it comes back.
+                let revived = !is_goodbye && r.record.get_record().get_ttl() <= 1;
+
                 // It is possible that this record was just updated in cache_flush
                 // processing. That's okay. We can still reset here.
                 r.record.reset_ttl(incoming.as_ref());
-                (i, false)
+                (i, revived)
             }
             None => {
+                if is_goodbye {
+                    return None;
+                }
                 let new_record = DnsRecordIntf {
                     record: incoming,
                     src_intf: intf.into(),
